@@ -147,7 +147,10 @@ def gen_replay(tier, rng):
         m = _mod(ent['mod'])
         if m is None:
             continue
-        preds = list(getattr(m, 'KNOWN_PREDICATES', {}).values())
+        # only the classes of OPEN known findings of the owning property are set aside (a predicate kept for a repaired
+        # defect excludes nothing)
+        open_names = {e.get('predicate') for e in runner.load_known(m.ID)}
+        preds = [f for n, f in getattr(m, 'KNOWN_PREDICATES', {}).items() if n in open_names]
         stride = ent['stride'][tier]
         k = 0
         shared_n = {}
@@ -162,7 +165,7 @@ def gen_replay(tier, rng):
             if any(p(c) for p in preds):
                 # known-finding class of the owning property: not replayed — except the classes whose defect IS an access
                 # outside the operand (listed as C02 findings too, see known/C02.json), a bounded sample of them
-                hit = [n for n in SHARED_KNOWN.get(ent['mod'], ()) if m.KNOWN_PREDICATES[n](c)]
+                hit = [n for n in SHARED_KNOWN.get(ent['mod'], ()) if n in open_names and n in m.KNOWN_PREDICATES and m.KNOWN_PREDICATES[n](c)]
                 if hit and shared_n.get(hit[0], 0) < (150 if tier == 'quick' else 1000) and _req_elems(c.req) <= 64:
                     shared_n[hit[0]] = shared_n.get(hit[0], 0) + 1
                     yield Case(c.req, c.harness + SAN_SUFFIX, dom=False, oracle=c.oracle, model=False, nontrivial=True,
